@@ -1,24 +1,26 @@
-(** C19 — Socket timeout options are tracked per live socket without crashing. Statements only. *)
+(** C19 — Socket timeout options are tracked per live socket without crashing. Statements only.
+    Both recorded findings are repaired: a negative [tv_sec] (accepted by Linux, stored as a zero
+    timeout) and a limit lookup on a closed descriptor number no longer abort. Every statement
+    quantifies over all histories with representable option values, those inputs included. *)
 From OCV Require Import Base.Prelude Syscall.SockOpt Syscall.SockOptOracle Syscall.SockOptProofs.
 Open Scope Z_scope.
 
-(** For every history inside the statement (I/O on live sockets, representable option values) that
-    does not use a negative [tv_sec], the oracle accepts the model's run. *)
-Theorem C19_holds_outside : forall ops,
-  wf_C19 ops = true -> no_defect_C19 ops = true -> ok_C19 ops (run_C19 ops) = true.
+(** For every history inside the statement (representable option values, any sign of [tv_sec],
+    lookups on live or dead descriptors) the oracle accepts the model's run. *)
+Theorem C19_holds : forall ops, wf_C19 ops = true -> ok_C19 ops (run_C19 ops) = true.
 Proof. exact ok_C19_run. Qed.
 
 (** Setting the options any number of times, before or after I/O, closing and reusing descriptor
     numbers never aborts: every operation of the history is answered. *)
 Theorem C19_no_abort : forall ops,
-  wf_C19 ops = true -> no_defect_C19 ops = true ->
+  wf_C19 ops = true ->
   ~ In OAbort (run_C19 ops) /\ ~ In ODiverged (run_C19 ops) /\ length (run_C19 ops) = length ops.
 Proof. exact no_abort_C19. Qed.
 
 (** The limit handed to a hooked call on a live socket is the limit of that socket's current option
-    value (zero = no limit), the current value being read off the history itself. *)
-Theorem C19_limit_current : forall ops,
-  wf_C19 ops = true -> no_defect_C19 ops = true -> C19_spec ops (run_C19 ops).
+    value (zero = no limit, the kernel's zero timeout = [AT_ONCE]), the current value being read off
+    the history itself. *)
+Theorem C19_limit_current : forall ops, wf_C19 ops = true -> C19_spec ops (run_C19 ops).
 Proof. exact limit_current_C19. Qed.
 
 Theorem C19_oracle_sound : forall ops rs, ok_C19 ops rs = true -> C19_spec ops rs.
@@ -27,29 +29,54 @@ Proof. exact ok_C19_sound. Qed.
 (** A reused descriptor number inherits nothing. *)
 Theorem C19_fresh_socket_unlimited : forall ops fd w,
   let h := ops ++ [Socket; Limit fd w] in
-  wf_C19 h = true -> no_defect_C19 h = true ->
+  wf_C19 h = true ->
   nth_error (run_C19 h) (length ops) = Some (OFd fd) ->
   nth_error (run_C19 h) (S (length ops)) = Some (OVal U64MAX).
 Proof. exact fresh_socket_unlimited_C19. Qed.
 
-(** Recorded finding [setsockopt_negative_sec_aborts]: with a negative [tv_sec] the statement fails. *)
-Theorem C19_refuted_setsockopt_negative_sec_aborts :
-  exists ops, wf_C19 ops = true /\ ok_C19 ops (run_C19 ops) = false.
-Proof. exact refuted_negative_sec. Qed.
+(** Repaired finding [setsockopt_negative_sec_aborts]: the model of the code before the repair
+    aborts on a negative [tv_sec]; the code as it is answers, and the socket then times out at once. *)
+Theorem C19_negative_sec_refuted_before_repair :
+  exists ops, wf_C19 ops = true /\ In OAbort (old_run_C19 before_negsec_repair ops)
+              /\ ok_C19 ops (old_run_C19 before_negsec_repair ops) = false.
+Proof. exact refuted_negative_sec_before_repair. Qed.
+
+Theorem C19_negative_sec_times_out_at_once : forall s fd w sec usec s1 t,
+  sec < 0 -> step s (SetOpt fd w sec usec) = (s1, ORet 0, t) ->
+  fst (step s1 (Limit fd w)) = (s1, OVal AT_ONCE) /\ snd (fst (step s1 (KGet fd w))) = OTv 0 0.
+Proof. exact negative_sec_times_out_at_once. Qed.
+
+(** Repaired finding [limit_on_closed_fd_aborts]: recv_time_limit / send_time_limit on a descriptor
+    number that is not open aborted (getsockopt: EBADF); now "no limit" ([C19_holds] covers it). *)
+Theorem C19_limit_on_closed_fd_refuted_before_repair :
+  exists ops, wf_C19 ops = true /\ In OAbort (old_run_C19 before_badfd_repair ops)
+              /\ ok_C19 ops (old_run_C19 before_badfd_repair ops) = false.
+Proof. exact refuted_limit_on_closed_fd_before_repair. Qed.
 
 Example C19_nonvacuous :
   let h := [Socket; Limit 0 Rcv; SetOpt 0 Rcv 7 0; Limit 0 Rcv; SetOpt 0 Rcv 0 20000; Limit 0 Rcv;
             SetOpt 0 Snd 18446744074 0; Limit 0 Snd; Socket; Close 0; Socket; Limit 0 Rcv; Limit 0 Snd;
             SetOpt 0 Rcv 0 0; Limit 0 Rcv; KGet 0 Rcv; Close 1; Close 1] in
-  wf_C19 h = true /\ no_defect_C19 h = true /\
+  let n := [Socket; SetOpt 0 Rcv (-1) 500000; Limit 0 Rcv; Limit 0 Snd; KGet 0 Rcv; SetOpt 0 Rcv 3 0;
+            Limit 0 Rcv; SetOpt 0 Snd (-7) 0; Close 0; Limit 0 Snd; Socket; Limit 0 Snd; Limit 9 Rcv] in
+  wf_C19 h = true /\
   run_C19 h = [OFd 0; OVal U64MAX; ORet 0; OVal 7000000000; ORet 0; OVal 20000000;
                ORet 0; OVal U64MAX; OFd 1; ORet 0; OFd 0; OVal U64MAX; OVal U64MAX;
-               ORet 0; OVal U64MAX; OTv 0 0; ORet 0; ORet (-1)].
+               ORet 0; OVal U64MAX; OTv 0 0; ORet 0; ORet (-1)] /\
+  wf_C19 n = true /\
+  run_C19 n = [OFd 0; ORet 0; OVal 1; OVal U64MAX; OTv 0 0; ORet 0;
+               OVal 3000000000; ORet 0; ORet 0; OVal U64MAX; OFd 0; OVal U64MAX; OVal U64MAX] /\
+  old_run_C19 before_negsec_repair n = [OFd 0; OAbort] /\
+  (* the oracle rejects an abort, and "no limit" on a socket whose timeout is zero *)
+  ok_C19 [Socket; SetOpt 0 Rcv (-1) 0; Limit 0 Rcv] [OFd 0; ORet 0; OVal U64MAX] = false /\
+  ok_C19 [Limit 9 Rcv] [OAbort] = false.
 Proof. repeat split; vm_compute; reflexivity. Qed.
 
-Print Assumptions C19_holds_outside.
+Print Assumptions C19_holds.
 Print Assumptions C19_no_abort.
 Print Assumptions C19_limit_current.
 Print Assumptions C19_oracle_sound.
 Print Assumptions C19_fresh_socket_unlimited.
-Print Assumptions C19_refuted_setsockopt_negative_sec_aborts.
+Print Assumptions C19_negative_sec_refuted_before_repair.
+Print Assumptions C19_negative_sec_times_out_at_once.
+Print Assumptions C19_limit_on_closed_fd_refuted_before_repair.
